@@ -147,6 +147,8 @@ pub enum Fault {
     ReadErr { proc: u32, nth: u32, errno: i32 },
     /// wait() on process `proc` fails
     Wait { proc: u32, errno: i32 },
+    /// the nth attempt (0-based) to create a directory / file at `site` fails (disk full, no permission)
+    Fs { site: String, nth: u32, errno: i32 },
 }
 
 #[derive(Clone, Debug, PartialEq, Eq, Serialize, Deserialize)]
